@@ -257,6 +257,15 @@ func ruleHNSWLayerSearch(r *Run, rule string, ord bool) {
 			admitLen = true // len < ef
 		case cmp.Op == token.LSS && isLen(cmp.R) && isEf(bo.X, bo.Y):
 			evict = true // ef < len
+		// the same tests spelled through their complements (`if len >= ef && !(d < worst) { continue }`)
+		case cmp.Op == token.LEQ && isLen(cmp.R) && isEf(bo.X, bo.Y):
+			admitLen = true // ef <= len
+		case cmp.Op == token.LEQ && isLen(cmp.L) && isEf(bo.Y, bo.X):
+			evict = true // len <= ef
+		case cmp.Op == token.LEQ && cmp.L == worst && strings.Contains(cmp.R, "Distance.Calculate("):
+			admitDist = true // worst <= d
+		case cmp.Op == token.LEQ && cmp.R == worst && strings.HasSuffix(cmp.L, ".distance") && !strings.Contains(cmp.L, "[c(0)]"):
+			term = true // current.distance <= worst
 		}
 	})
 	site := w.Pos(fn.Pos()) + " " + name
